@@ -221,7 +221,9 @@ class AsyncSut:
         hdrs = []
         for hk, hv in (headers or {}).items():
             hdrs.append((hk.lower().encode('latin-1'), hv.encode('utf-8') if isinstance(hv, str) else hv))
-        if declared_len is not None:
+        if declared_len == 'absent':
+            pass                    # no Content-Length header at all (chunked transfer encoding)
+        elif declared_len is not None:
             hdrs.append((b'content-length', str(declared_len).encode()))
         elif method == 'POST':
             hdrs.append((b'content-length', str(len(body)).encode()))
@@ -238,6 +240,11 @@ class AsyncSut:
                 step = (len(body) + n - 1) // n
                 parts = [body[i:i + step] for i in range(0, len(body), step)]
                 inbox = [{'type': 'http.request', 'body': p_, 'more_body': i < len(parts) - 1} for i, p_ in enumerate(parts)]
+            if getattr(self, 'body_tail_empty', False) and body:
+                # ... and, as servers do for chunked uploads, the end of the body is signalled by a final EMPTY event
+                for ev_ in inbox:
+                    ev_['more_body'] = True
+                inbox.append({'type': 'http.request', 'body': b'', 'more_body': False})
             if client_gone:
                 inbox.append({'type': 'http.disconnect'})
             r.inbox = inbox
@@ -274,6 +281,9 @@ class AsyncSut:
                 elif ty == 'websocket.send':
                     if ws.paused:
                         await k.ablock(lambda: not ws.paused or ws.client_closed, None, 'asgi.send (back-pressure)')
+                    elif ws.slow:
+                        once = []
+                        await k.ablock(lambda: bool(once) or once.append(1) or False, None, 'asgi.send (slow link)')
                     if ws.client_closed or ws.closed_by_server:
                         ws.sent_after_close += 1
                         raise OSError('websocket closed')      # what uvicorn/hypercorn do after disconnect
